@@ -211,7 +211,7 @@ theorem idWF_processHeader (r : Repo) (h : Hdr) (ok : Bool) (hw : LinkWF r.arena
     rw [ha, hb]
     obtain ⟨l2, w, _, _, rfl⟩ := newBranch_ok_shape r pb ph h nb hn
     exact idWF_fork r.arena r.branches hi pb ph h _ _ rfl (fun bi b k d hb hk => fresh_not_held r hi h.id hp.fresh bi b k d hb hk)
-  | extend pb ph lst w hp hprev hlen ha hb _ =>
+  | extend pb ph lst w hp hprev hlen hbw ha hb _ =>
     rw [ha, hb]
     have hbr : r.arena[pb]? = some (r.br pb) := by
       unfold Repo.br; rw [List.getElem?_eq_getElem hlen]; rfl
